@@ -11,28 +11,39 @@ def proof(text, technique):
 
 CLAIMS = {
     "C01": tv("The Lean model (World.step + independent Replay interpreter) is compared with EvoWorklist/FluentWorklist after every operation; an independent Python .gwl interpreter replays the records on the implementation. The refinement theorem is not proved yet, so the level claimed is translation validation."),
-    "C02": tv("Model vs implementation on add/remove/worklist/EVO programs incl. rejected operations; limits oracle on stored doubles incl. off-envelope values."),
+    "C02": proof("addStep/removeStep accept exactly when the limit is respected and write exactly v0±v; LabValid (0 <= vol <= max for every well) is preserved by every micro-operation, by exec of any micro list including its rejected, partially applied outcome (exec_valid), by every public operation (step_limits) and hence by every operation sequence (world_limits); the constructors establish it (mk_valid, trough_mk_valid). Tie: labware, worklist and EVO streams with boundary-biased volumes, rejected operations followed by further operations; limits oracle on stored doubles incl. off-envelope values.",
+                 "Lean 4 invariant theorem over all operation sequences + per-operation correspondence check"),
     "C03": tv("Programs whose last operation fails at a chosen sub-step; records compared after the failure; independent replay for safety."),
-    "C04": tv("Labware add/remove histories; independent per-real-well ledger in exact arithmetic."),
-    "C05": tv("Composition histories; independent absolute-amount ledger in exact arithmetic."),
+    "C04": proof("exec_ledger: after any micro list every real well holds its old volume plus/minus exactly the executed steps addressed to it (executed = accepted prefix); exec_frame; compileAdd/Remove_shape (which steps a call compiles to: column-major pairing, scalar broadcast, repeats charged separately); trough_alias; flattenF_pairs. Tie: labware stream with scalar/list/2-D arguments and an independent exact ledger.",
+                 "Lean 4 ledger theorem over all call histories + correspondence check"),
+    "C05": proof("combine_spec (ideal volumetric mixing for all rationals), addStep_amount (amount of every component after an addition = old amount + v*fraction), removeStep_frac/amount, addStep_fracSum (normalisation), frac_range, pair_conserves (a transfer pair conserves every component's total amount), pair_same_well, combine_zero (no division by zero). Tie: composition stream with an independent amounts ledger.",
+                 "Lean 4 theorems (field arithmetic over Rat) + correspondence check"),
     "C06": proof("Theorems partition_spec (sum, 0<step<=max, exactly max(1,ceil(v/M)) steps for all rational v, M > 0), partition_zero, multi_disp_fits/unchanged about the model of partition_volume / reagent_distribution; the model is tied to /repo by the partition_volume correspondence stream (dense dyadic grid) and transfers with split volumes.",
                  "Lean 4 theorem over all rationals + correspondence check"),
+    "C07": proof("flows_split/flows_nosplit (per (source,destination) pair the plan's pair volumes sum to the requested volumes), flows_perm, flows_mode_indep, discipline (every pair is followed by exactly the requested tip action), pair_volume_bounds, break_closes/no_break_without_split, action_records, pair_same_fields, rejects_lengths/negative, base_refuses_transfer. Tie: transfer stream on both devices with an independent flows/discipline decoder.",
+                 "Lean 4 theorems about the transfer plan for all triple lists + correspondence check"),
     "C08": proof("Closed-form numbering, bijection, ID injectivity, table/resolve and inverse-numbering theorems for all geometries with <= 26 rows and any number of columns; all tables of every geometry in scope compared with Labware attributes, positions of all wells (thorough) / sampled geometries (quick).",
                  "Lean 4 theorems for all geometries + exhaustive table correspondence"),
+    "C09": tv("Record templates (field order of every record kind), limits and format strings are regenerated from the source and proved equal to the Spec constants (16 GenOK obligations, kernel-checked); every emitter is compared with the model on valid and one-fault invalid argument tuples and decoded by an independent grammar parser. The parse/render round-trip theorem is not proved yet."),
     "C10": proof("mask_single/member/any/list/set_ext/rejects and EVO slot theorems (sum of distinct tip values = OR); tip table and aggregation expression tied by GenOK; all subsets / short sequences compared with prepare_aspirate_dispense_parameters.",
                  "Lean 4 theorems + GenOK table obligations + exhaustive subset correspondence"),
+    "C11": proof("exec_hist_append / micro_hist_* (history only grows by log, only shrinks by condense), condense_spec, one entry per add/remove/aspirate/dispense, transfer_entries (exactly one new entry per labware, also for source = destination), lvh_count / lvh_label (the LVH number is the number of extra pair steps), report_order (for any snapshot formatter). Tie: history compared after every operation, against deep copies. Known finding F7c (label 'first'/'last').",
+                 "Lean 4 theorems over all operation histories + correspondence check"),
     "C12": proof("decode_encode, encode_inj, encode_length, padding_zero for all R, C <= 255 and all selections; exhaustive subsets of small geometries compared with evo_get_selection and decoded by an independent decoder.",
                  "Lean 4 round-trip theorem + exhaustive small-geometry correspondence"),
+    "C13": tv("EVO command templates, slot order and limits tied by 9 GenOK obligations; evo_aspirate/evo_dispense/evo_wash compared with the model (evoAD, evoWash) on any-order wells/tips/volumes and out-of-range values, and decoded by an independent EVOware decoder compared with the tracking. The agreement theorem is not proved yet."),
+    "C14": tv("DilutionPlan's own ideal targets are fed to the Lean model of the planning algorithm (planFrom) which must return the same instructions; every returned plan is checked by an independent exact checker and executed with to_worklist on both devices. numpy's linspace/exp/log are inputs to the model (not modelled)."),
+    "C15": proof("shift/unshift inverse, offset and refusal theorems; rotate cw/ccw closed forms, ccw∘cw = id, cw^4 = id, bijectivity; randomiser: derandomize∘randomize = id and row/column preservation for ANY permutation table (numpy's PRNG is observed, not modelled). Tie: transform stream vs WellShifter/WellRotator/WellRandomizer.",
+                 "Lean 4 theorems for all shapes/permutations + correspondence check (PRNG observed)"),
+    "C16": tv("Every program on EvoWorklist, FluentWorklist and BaseWorklist against one device-parametric model and against each other."),
+    "C17": proof("read_back (splitting the decoded file bytes at CRLF returns exactly the records, for all well-formed record lists), no_trailing_break, empty file, repr; joiner/open() arguments tied by GenOK. Tie: real files written by save()/with-block. Filesystem replacement of earlier content is observed, not proved.",
+                 "Lean 4 round-trip theorem + GenOK + real-file correspondence"),
     "C18": proof("perm (multiset preservation), single_column, groups_sorted, rows_sorted, group_keys_complete, auto_rule, explicit_respected, invalid_mode_rejected for all triple lists; compared with partition_by_column / optimize_partition_by.",
                  "Lean 4 theorems (List.Perm, Pairwise) + correspondence check"),
     "C19": proof("length_eq, get_mod, zero, rejects_empty for all n and all non-empty well lists; compared with get_trough_wells.",
                  "Lean 4 theorems + correspondence check"),
-    "C15": tv("Shift/rotate/randomise on the model vs WellShifter/WellRotator/WellRandomizer; closed-form oracle."),
-    "C17": tv("Bytes written by save()/with-block into real files vs the model's fileBytes; GenOK on open() arguments and joiner."),
-    "C20": tv("Constructor specifications (valid and one-fault invalid) on Labware/Trough vs Labware.mk?/Trough.mk?; independent consistency oracle."),
-    "C07": tv("Transfer programs; independent flows/discipline decoder."),
-    "C11": tv("Histories compared after every operation; prefix/aliasing/label oracle."),
-    "C16": tv("Every program on EvoWorklist, FluentWorklist and BaseWorklist against one device-parametric model and against each other."),
+    "C20": proof("mk_ok (every accepted plate/trough spec yields a consistent labware: tables, volumes laid out as given, limits, history, one-hot composition) and mk_rejects_* (each unrepresentable class raises ValueError). Tie: constructor stream with one-fault invalid specs and an independent consistency oracle.",
+                 "Lean 4 theorems over all constructor specs + correspondence check"),
 }
 NOT_CLAIMED = {}
 NOTES = ("All checks: ./check Cxx [--tier quick|thorough]; VERIF_SEED seeds every random choice. A broken proof obligation or "
